@@ -316,6 +316,12 @@ func (c *checker) program(src string, f feat, exhaustiveBudgets bool) {
 		return
 	}
 	N := base.steps
+	if N > 20000 {
+		// no program of the grammar needs more than a few hundred steps: the counter was not reset at the start of this
+		// top-level evaluation ("every new top-level evaluation starts with a full budget")
+		c.violate("step-counter-not-reset", kase{Src: src, Lim: limits{Monitor: true}}, "Steps() counts the current top-level evaluation only (a few hundred steps at most)", fmt.Sprintf("Steps()=%d", N))
+		return
+	}
 	// plain run (no context, no budget): same outcome and same probe labels
 	plain := c.g.run(src, limits{})
 	r.AddEvals(1)
